@@ -18,7 +18,7 @@ func init() {
 		name:           "detsim",
 		property:       "C18",
 		prepare:        prepareDet,
-		quickBudget:    60 * time.Second,
+		quickBudget:    75 * time.Second,
 		thoroughBudget: 1500 * time.Second,
 		realVsStub: map[string]string{
 			"compiler.Compile, lalr, lex, syntax, grammar, gen.Generate, templates, FormatGo, import extraction": "real code (map range expressions and time.Now/Since rewritten to go through zzsim in an overlay copy)",
